@@ -98,6 +98,21 @@ def run(ctx):
             ctx.case((mname, a, b, c, d), nontrivial=(a, b, c, d) != ("A", "A", "A", "A"))
             ctx.count("outcome", text.split()[0] if text.startswith("ok") else text.split()[1])
             ctx.count("mode", mname)
+    # anything that is not a SampleIntervalMode member is an unknown mode, also objects that merely equal a member's value
+    # or name: with every member combination some real mode would accept, and with none
+    class Eq:
+        def __init__(self, v): self.v = v
+        def __eq__(self, o): return getattr(o, "value", o) == self.v
+        def __hash__(self): return hash(self.v)
+    unknown = [0, 1, 2, 3, -1, 1.0, True, False, "NONE", "REGULAR", "IRREGULAR", "regular", None, [], (), SampleIntervalMode, Eq(1), Eq(2), b"\x01"]
+    combos = [("A", "A", "A", "A"), ("Dd", "Td", "A", "A"), ("A", "A", "Td", "A"), ("Db", "Tb", "Tb", "A"), ("A", "A", "A", "Sm"),
+              ("A", "A", "A", "Se"), ("Dh", "A", "Th", "A")]
+    for mode in unknown:
+        for a, b, c, d in combos:
+            o = outcome(Timing, mode, V[a], V[b], V[c], V[d])
+            ctx.case(("unknown-mode", repr(mode)[:30], a, b, c, d))
+            if not (o[0] == "err" and o[1] in ("ValueError", "TypeError")):
+                ctx.violation(mode=repr(mode)[:60], args=[a, b, c, d], observed=show(o)[:200], required="ValueError/TypeError (unknown mode)")
     res = ctx.model([q for q, _ in reqs])
     if res is not None:
         for (q, want), got in zip(reqs, res):
